@@ -151,7 +151,10 @@ func (m *Manager) handlePotentialHeader(ctx context.Context, bz []byte, daHeight
 		default:
 			m.logger.Warn("headerInCh backlog full, dropping header: daHeight ", daHeight)
 		}
-		m.headerInCh <- NewHeaderEvent{header, daHeight}
+		select {
+		case m.headerInCh <- NewHeaderEvent{header, daHeight}:
+		case <-ctx.Done():
+		}
 	}
 	return true
 }
@@ -186,7 +189,10 @@ func (m *Manager) handlePotentialData(ctx context.Context, bz []byte, daHeight u
 		default:
 			m.logger.Warn("dataInCh backlog full, dropping signed data", "daHeight", daHeight)
 		}
-		m.dataInCh <- NewDataEvent{&signedData.Data, daHeight}
+		select {
+		case m.dataInCh <- NewDataEvent{&signedData.Data, daHeight}:
+		case <-ctx.Done():
+		}
 	}
 }
 
